@@ -1931,6 +1931,7 @@ lys_implement(struct lys_module *mod, const char **features, struct lys_glob_unr
      *    but there can be some unres items added that do
      */
     mod->implemented = 1;
+    mod->ctx->change_count++;
 
     /* this module is compiled in this compilation */
     mod->to_compile = 1;
